@@ -11,3 +11,5 @@ import TlxVerif.Props.C07
 #print axioms TlxVerif.C07.equallySplit_zero_witness
 #print axioms TlxVerif.C07.merge_phase_all_schedules
 #print axioms TlxVerif.C07.model_splitters_nondecreasing
+#print axioms TlxVerif.C07.model_refines_spec
+#print axioms TlxVerif.C07.front_ends_refine_spec
